@@ -13,7 +13,7 @@ _THEOREM_NAMES = ["C01_roundtrip_general", "C01_save_total", "C01_roundtrip", "C
                   "C01_fixpoint", "C01_fixpoint_dir", "C01_same_type_save", "C01_same_type_load", "C01_same_type",
                   "C01_type_dispatch", "C01_wf_of_wfB", "C01_wfB_iff", "C01_load_gate_iff", "C01_load_gate_not_found",
                   "C01_load_file_type", "C01_roundtrip_dir_relative", "C01_fixpoint_dir_dot", "C01_cycles_dir_outside",
-                  "C01_fixpoint_dir_iff"]
+                  "C01_fixpoint_dir_iff", "C01_save_gate_iff", "C01_save_load_gate"]
 THEOREMS = [_T + n for n in _THEOREM_NAMES]
 LEVEL_TEXT = ("Lean theorems over an executable model of all 26 AOEF adapter modules (data classes, document classes, "
               "save = first-wins tables over the post-order traversal, single-pass loader with lenient / strict "
@@ -115,7 +115,8 @@ def _cmp_save_doc(inp, io, mo):
         return None if {k: v for k, v in io.items() if k != "trace"} == mo else "implementation and model disagree (error)"
     if io.get("unknown_keys"):
         return f"the document has keys the model does not know: {io['unknown_keys']}"
-    d = aoef.diff(io["val"], aoef.canon_doc(mo["val"]))
+    want = aoef.canon_doc(mo["val"])
+    d = None if io["val"] == want else aoef.diff(io["val"], want)
     return None if d is None else "document written by the code differs from the model's at " + d
 
 
@@ -150,6 +151,33 @@ def _impl_load_gate(inp):
         return {"ok": True} if want == ty else {"ok": False, "loaded_type": want}
     finally:
         aoef_impl.cleanup(path)
+
+
+def _impl_save_gate(inp):
+    """io.save with the given suffix and format argument: is the document written at all?"""
+    import os as _os
+    from soundevent import io
+    from .. import leanio as _leanio
+    cj = aoefgen.gen_collection(random.Random("gate:" + inp["doc_type"]), inp["doc_type"], size=0.5)
+    obj = aoef.build(cj)
+    path = _os.path.join(_leanio.run_dir(), "sgate" + (".json" if inp["suffix_json"] else inp.get("suffix", ".aoef")))
+    aoef_impl.cleanup(path)
+    try:
+        kw = {} if inp.get("format") == "<default>" else {"format": inp.get("format")}
+        io.save(obj, path, **kw)
+        return {"ok": True} if _os.path.exists(path) else {"ok": False}
+    finally:
+        aoef_impl.cleanup(path)
+
+
+def _model_save_gate(inp):
+    return dict(inp, format="aoef" if inp.get("format") == "<default>" else inp.get("format"))
+
+
+def _save_gate_cases():
+    return [{"suffix_json": sj, "format": fmt, "doc_type": ty}
+            for sj in (True, False) for fmt in (None, "aoef", "other", "<default>", "AOEF", "")
+            for ty in ("recording_set", "annotation_project", "evaluation")]
 
 
 def _gate_cases():
@@ -190,10 +218,19 @@ def _cmp_history(inp, io, mo):
     return None
 
 
+def _impl_roundtrip_dup(inp):
+    out = c01_impl.roundtrip(inp)
+    return {k: v for k, v in out.items() if k in ("val", "raise", "unbuildable")}
+
+
 OPS = {
+    # the same object listed twice in the collection's own member list (outside WF: only the correspondence is checked)
+    "roundtrip_dup": Op("roundtrip_dup", _impl_roundtrip_dup, compare=_cmp_roundtrip, determined=False,
+                        to_model=_model_roundtrip, model_op="roundtrip", nontrivial=lambda i, o: "val" in o),
     "history": Op("history", _impl_history, holds=_holds_history, compare=_cmp_history, to_model=_model_history,
                   nontrivial=lambda i, o: all("val" in x for x in o)),
     "load_gate": Op("load_gate", _impl_load_gate, nontrivial=lambda i, o: True),
+    "save_gate": Op("save_gate", _impl_save_gate, to_model=_model_save_gate, nontrivial=lambda i, o: True),
     "roundtrip": Op("roundtrip", _impl_roundtrip, holds=_holds_roundtrip, compare=_cmp_roundtrip,
                     to_model=_model_roundtrip, nontrivial=lambda i, o: "val" in o),
     "save_doc": Op("save_doc", _impl_save_doc, compare=_cmp_save_doc, determined=False, model_op="save",
@@ -319,12 +356,23 @@ def _doc_cases(cases):
 def _mutate_doc(rng, doc):
     """a document outside what `save` writes: dangling / duplicated / reordered entries (lenient vs strict loading)"""
     d = copy.deepcopy(doc)
+    if d.get("tasks") and d.get("clips") and rng.random() < 0.35:
+        # a clip that only a task refers to disappears: the annotations load, the task must not
+        used = {a["clip"] for a in d.get("clip_annotations") or []}
+        only = [t["clip"] for t in d["tasks"] if t["clip"] not in used]
+        if only:
+            k = rng.choice(only)
+            d["clips"] = [c for c in d["clips"] if c["uuid"] != k]
+            return d, "drop-task-clip:clips"
     lists = [k for k in aoef.DOC_LISTS if d.get(k)]
     if not lists:
         return d, "none"
     k = rng.choice(lists)
-    how = rng.choice(["drop", "dup", "reverse", "drop-first"])
-    if how == "drop":
+    how = rng.choice(["drop", "dup", "reverse", "drop-first", "drop-any"])
+    if how == "drop-any":
+        i = rng.randrange(len(d[k]))
+        d[k] = d[k][:i] + d[k][i + 1:]
+    elif how == "drop":
         d[k] = d[k][:-1]
     elif how == "drop-first":
         d[k] = d[k][1:]
@@ -403,7 +451,7 @@ def _stage_slots(ctx, st):
 
 
 def _stage_random(ctx, st):
-    n = ctx.budget(40, 1500)
+    n = ctx.budget(32, 1200)
     cases = st["cases"] = _gen_cases(ctx, ctx.rng, n)
     ctx.run_cases(OPS["roundtrip"], cases)
     ctx.run_cases(OPS["save_doc"], _doc_cases(cases))
@@ -448,6 +496,29 @@ def _stage_wide(ctx, st):
     ctx.run_cases(OPS["roundtrip"], ints)
 
 
+IO_VARIANTS = [{"save_format": None}, {"save_format": "aoef", "load_format": None}, {"load_format": "aoef", "load_type": True},
+               {"load_type": True}, {"subdir": True, "path_as": "path"}, {"subdir": True, "save_format": None, "load_format": None,
+                                                                          "load_type": True}, {"path_as": "path"}]
+
+
+def _stage_io(ctx, st):
+    """the other spellings of the call: format given / inferred, the type requested on load, a `Path` as file name,
+    a parent directory that does not exist yet; and the same member listed twice (model = code outside WF)"""
+    src = st.get("rich", [])[:16] + st.get("cases", [])[::10] + st.get("dirs", [])[::7]
+    cases = [dict(c, io=IO_VARIANTS[i % len(IO_VARIANTS)], n=1 + i % 2) for i, c in enumerate(src)]
+    ctx.tally("call variants (format / type / Path / new directory)", len(cases))
+    ctx.run_cases(OPS["roundtrip"], cases)
+    dups = []
+    for c in st.get("cases", [])[::3] + st.get("rich", [])[8:16]:
+        v = c["collection"]["value"]
+        for key in ("recordings", "clip_annotations", "clip_predictions", "clip_evaluations", "tasks"):
+            if v.get(key):
+                w = dict(v, **{key: v[key] + [copy.deepcopy(v[key][0])]})
+                dups.append(dict(c, collection={"type": c["collection"]["type"], "value": w}, n=1))
+    ctx.tally("duplicated-member inputs (outside WF, correspondence only)", len(dups))
+    ctx.run_cases(OPS["roundtrip_dup"], dups)
+
+
 def _stage_load(ctx, st):
     # the loader on documents, pristine and mutated
     src = st.get("cases", [])[::2] + st.get("dirs", [])[::3] + st.get("wide", [])[::3] + st.get("twin", [])[::3]
@@ -478,6 +549,8 @@ def _stage_gate(ctx, st):
     # the file-level gate of io.load: every combination of existence / suffix / format / version / type
     ctx.run_cases(OPS["load_gate"], _gate_cases())
     ctx.exhaustive["load_gate"] = "exists x suffix x format{None,aoef,other} x version{3} x doc type{3} x requested type{4}"
+    ctx.run_cases(OPS["save_gate"], _save_gate_cases())
+    ctx.exhaustive["save_gate"] = "suffix{.json,other} x format{None,aoef,other,default,AOEF,''} x doc type{3}"
 
 
 def _stage_big(ctx, st):
@@ -490,7 +563,7 @@ def _correspondence(ctx):
     ctx.run_corpus(OPS)
     st = {}
     for name, fn in (("all-fields", _stage_rich), ("optional-slots", _stage_slots), ("random", _stage_random),
-                     ("directories", _stage_dirs), ("wide-atoms-twins", _stage_wide), ("loader", _stage_load),
+                     ("directories", _stage_dirs), ("wide-atoms-twins", _stage_wide), ("call-variants", _stage_io), ("loader", _stage_load),
                      ("histories", _stage_history), ("load-gate", _stage_gate), ("large", _stage_big)):
         t0 = time.time()
         ctx.stage("correspondence:" + name, fn, ctx, st)
